@@ -7,7 +7,8 @@
 //! every 29th byte (parse errors) + every example with each identifier occurrence replaced, one at
 //! a time, by an undefined name (analysis errors) and, one at a time, wrapped into a binary expression ending in a
 //! number / bool literal (type-mismatch diagnostics) + metadata texts longer than 64 bytes whose 64th byte falls on
-//! every offset inside a multi-byte character (size diagnostics).
+//! every offset inside a multi-byte character (size diagnostics) + optional outputs carrying a datum (10 kinds of datum
+//! expression x 4 layouts x named / anonymous) + duplicate definitions and names of the wrong kind.
 use std::collections::BTreeSet;
 
 fn witness(ob: &str, f: &str, input: String, observed: String, required: &str) {
@@ -133,6 +134,32 @@ fn main() {
         let src = format!("party A;\n// caf\u{e9}\ntx t(base: Int) {{\n  input s {{ from: A, min_amount: Ada(1), }}\n  output {{ to: A, amount: s, }}\n  metadata {{ {k}: \"some value\", }}\n}}\n");
         if check_parse_error(&src, &format!("metadata-key[{i}]")) { parse_cases += 1; }
         analysis_cases += check_analysis(&src, &format!("metadata-key[{i}] {k}")) as u64;
+    }
+    // optional outputs that carry a datum (not allowed): the datum written as every kind of expression - with and without a
+    // location of its own - in first, middle and last position of the block, named and anonymous outputs
+    let datums = ["()", "1", "true", "\"text\"", "0xab", "R { a: 1, }", "q", "q + 1", "(1)", "[1, 2]"];
+    for (i, d) in datums.iter().enumerate() {
+        for (j, fields) in [format!("datum: {d}, to: A, amount: Ada(1),"), format!("to: A, datum: {d}, amount: Ada(1),"), format!("to: A, amount: Ada(1), datum: {d},"), format!("to: A,\n    amount: Ada(1),\n    datum: {d}\n")].iter().enumerate() {
+            for name in ["", "change "] {
+                let src = format!("party A;\n// caf\u{e9}\ntype R {{ a: Int, }}\ntx t(q: Int) {{\n  output ? {name}{{ {fields} }}\n}}\n");
+                if check_parse_error(&src, &format!("optional-output[{i},{j}]")) { parse_cases += 1; }
+                analysis_cases += check_analysis(&src, &format!("optional-output[datum {d}, layout {j}, name {name:?}]")) as u64;
+            }
+        }
+    }
+    // the remaining diagnostic kinds: duplicate definitions, names of the wrong kind
+    let others = [
+        "party A;\nparty A;\ntx t() { output { to: A, amount: Ada(1), } }\n",
+        "party A;\ntype R { a: Int, }\ntype R { b: Int, }\ntx t() { output { to: A, amount: Ada(1), } }\n",
+        "party A;\n// caf\u{e9}\ntype R { a: Int, }\ntx t() { output { to: R, amount: Ada(1), } }\n",
+        "party A;\ntype R { a: Int, }\ntx t() { output { to: A, amount: R(1), } }\n",
+        "party A;\ntx t(q: Int) { output { to: A, amount: q(1), } }\n",
+        "party A;\ntx t(q: Zz) { output { to: A, amount: Ada(1), } }\n",
+        "party A;\ntype R { a: Zz, }\ntx t() { output { to: A, amount: Ada(1), } }\n",
+    ];
+    for (i, src) in others.iter().enumerate() {
+        if check_parse_error(src, &format!("other[{i}]")) { parse_cases += 1; }
+        analysis_cases += check_analysis(src, &format!("other[{i}]")) as u64;
     }
     for (i, src) in mism.iter().enumerate() {
         if check_parse_error(src, &format!("mismatch[{i}]")) { parse_cases += 1; }
